@@ -31,12 +31,20 @@ mod = __import__('cvxopt.' + spec['module'], fromlist=['x'])
 fn = getattr(mod, spec['func'])
 out = {'exception': None, 'changed': {}, 'result': None}
 mats = {}
+bigs = set()
 def build(a):
     k = a['kind']
     if k == 'matrix':
         tc = a['tc']
         n = a['nrows'] * a['ncols']
         base = a.get('seed', 1)
+        if a.get('big') or 'fill' in a:
+            val = a.get('fill', 0)
+            m = matrix({'d': float(val), 'z': complex(val), 'i': val}[tc],
+                       (a['nrows'], a['ncols']), tc)
+            mats[a['name']] = m
+            if a.get('big'): bigs.add(a['name'])
+            return m
         if tc == 'd': vals = [float(base + i) for i in range(n)]
         elif tc == 'z': vals = [complex(base + i, -(base + i)) for i in range(n)]
         else: vals = [int(base + i) for i in range(n)]
@@ -46,6 +54,7 @@ def build(a):
     if k in ('int', 'float'): return a['value']
     if k == 'complex': return complex(a['value'][0], a['value'][1])
     if k == 'char': return chr(a['value'])
+    if k == 'bytechar': return bytes([a['value'] % 256])
     if k == 'none': return None
     raise ValueError(k)
 class PyBuffer(ctypes.Structure):
@@ -76,7 +85,8 @@ for name, m in mats.items():
     addr = bufaddr(m) if n else 0
     es = {'d': 8, 'z': 16, 'i': 8}[m.typecode]
     bufs[name] = {'addr': addr, 'nbytes': n * es, 'elsize': es}
-before = {name: list(m) for name, m in mats.items()}
+before = {name: list(m) for name, m in mats.items() if name not in bigs}
+print('REPLAY-BUFS ' + json.dumps(bufs))
 sys.stdout.flush()
 try:
     r = fn(*args, **kwargs)
@@ -85,6 +95,7 @@ except BaseException as e:
     out['exception'] = type(e).__name__
     out['message'] = str(e)[:200]
 for name, m in mats.items():
+    if name in bigs: continue
     after = list(m)
     out['changed'][name] = [i for i in range(len(after))
                             if after[i] != before[name][i]
@@ -99,21 +110,35 @@ if log and os.path.exists(log):
             d = {'routine': p[1]}
             for kv in p[2:]:
                 k, v = kv.split('=')
-                d[k] = int(v, 0)
+                d[k] = 0 if v == '(nil)' else int(v, 0)
             calls.append(d)
 out['calls'] = calls
 print('REPLAY-JSON ' + json.dumps(out))
 '''
 
 
-def gen_interposer(routines):
-    """C source of the LD_PRELOAD shim for the given extern table"""
+CHARPARAMS = ('trans', 'transa', 'transb', 'uplo', 'diag', 'side', 'jobz',
+              'range', 'jobu', 'jobvt', 'vect', 'job', 'compq', 'norm',
+              'direct', 'storev', 'sort', 'sense', 'jobvl', 'jobvr', 'jobvs',
+              'jobvsl', 'jobvsr', 'itype_c', 'fact', 'equed', 'balanc',
+              'compz', 'howmny', 'eigsrc', 'initv')
+
+
+def gen_interposer(routines, lapack=None):
+    """C source of the LD_PRELOAD shim for the given extern tables.
+
+    BLAS routines: log, forward only when CVXOPT_VERIF_FORWARD=1.
+    LAPACK routines: log; a workspace query (lwork/lrwork/liwork == -1) is
+    always forwarded (the wrapper needs the answer; a query touches nothing
+    but work[0]); any other call is forwarded only when asked, otherwise the
+    integer outputs (info, ...) are set to 0."""
     from contracts.c.extern_blas import SCALARS
     out = ['#define _GNU_SOURCE', '#include <dlfcn.h>', '#include <stdio.h>',
            '#include <stdlib.h>', '#include <string.h>',
            'static FILE *lg(void){ static FILE *f; if(!f){ const char *p='
            'getenv("CVXOPT_VERIF_LOG"); f = p ? fopen(p,"a") : stderr; }'
            ' return f; }',
+           'static __thread int depth;',
            'static int fwd(void){ const char *p=getenv("CVXOPT_VERIF_FORWARD");'
            ' return p && p[0]==\'1\'; }',
            'static void *look(const char *nm){ void *p = dlsym(RTLD_NEXT, nm);'
@@ -122,38 +147,117 @@ def gen_interposer(routines):
            ' hl = dlopen("liblapack.so.3", RTLD_LAZY|RTLD_GLOBAL); if(hl) p ='
            ' dlsym(hl, nm);} } if(!p){ fprintf(stderr, "interposer: cannot '
            'resolve %s\\n", nm); abort(); } return p; }']
-    for name, rt in sorted(routines.items()):
-        ret = {'real': 'double', 'index': 'int'}.get(rt.ret, 'void')
-        params = ', '.join('void *a%d' % i for i in range(len(rt.params)))
-        fmt, vals = [], []
-        for i, p in enumerate(rt.params):
-            if p in rt.arrays:
-                fmt.append('%s=%%p' % p)
-                vals.append('a%d' % i)
-            elif p in SCALARS:
-                continue
-            elif p in ('trans', 'transa', 'transb', 'uplo', 'diag', 'side',
-                       'jobz', 'range', 'jobu', 'jobvt', 'vect', 'job',
-                       'compq', 'norm', 'direct', 'storev', 'sort', 'sense',
-                       'jobvl', 'jobvr', 'jobvs', 'jobvsl', 'jobvsr'):
-                fmt.append('%s=%%d' % p)
-                vals.append('(int)*(char*)a%d' % i)
-            else:
-                fmt.append('%s=%%d' % p)
-                vals.append('*(int*)a%d' % i)
-        call = ', '.join('a%d' % i for i in range(len(rt.params)))
-        body = ['%s %s(%s){' % (ret, name, params),
-                '  FILE *f = lg();',
-                '  fprintf(f, "CALL %s %s\\n"%s); fflush(f);' % (
-                    name, ' '.join(fmt), ''.join(', ' + v for v in vals)),
-                '  if (fwd()) { %s (*real)(%s) = look("%s");' % (
-                    ret, params, name),
-                '    %sreal(%s); }' % ('return ' if ret != 'void' else '',
-                                      call),
-                '  %s' % ('return 0;' if ret != 'void' else 'return;'),
-                '}']
-        out.extend(body)
+    tables = [(routines, False)]
+    if lapack:
+        tables.append((lapack, True))
+    for tab, islap in tables:
+        for name, rt in sorted(tab.items()):
+            ret = {'real': 'double', 'index': 'int', 'int': 'int'}.get(
+                rt.ret, 'void')
+            params = ', '.join('void *a%d' % i for i in range(len(rt.params)))
+            fmt, vals, outs, wsz = [], [], [], []
+            funcs = getattr(rt, 'funcs', ())
+            routs = getattr(rt, 'outs', ())
+            for i, p in enumerate(rt.params):
+                if p in rt.arrays:
+                    fmt.append('%s=%%p' % p)
+                    vals.append('a%d' % i)
+                elif p in funcs:
+                    continue
+                elif p in routs:
+                    outs.append(i)
+                elif p in SCALARS or (islap and p in (
+                        'vl', 'vu', 'abstol', 'rcond', 'anorm', 'alpha_r')):
+                    continue
+                elif p in CHARPARAMS:
+                    fmt.append('%s=%%d' % p)
+                    vals.append('(int)*(char*)a%d' % i)
+                else:
+                    fmt.append('%s=%%d' % p)
+                    vals.append('*(int*)a%d' % i)
+                    if p in ('lwork', 'lrwork', 'liwork'):
+                        wsz.append(i)
+            call = ', '.join('a%d' % i for i in range(len(rt.params)))
+            cond = 'fwd()'
+            if islap and wsz:
+                cond = '(fwd() || %s)' % ' || '.join(
+                    '*(int*)a%d == -1' % i for i in wsz)
+            # only calls made by the extension itself are logged (depth 0);
+            # calls LAPACK makes internally while forwarded are not
+            body = ['%s %s(%s){' % (ret, name, params),
+                    '  if (depth > 0) { %s (*real)(%s) = look("%s"); '
+                    '%sreal(%s); %s}' % (
+                        ret, params, name,
+                        'return ' if ret != 'void' else '', call,
+                        'return; ' if ret == 'void' else ''),
+                    '  FILE *f = lg();',
+                    '  fprintf(f, "CALL %s %s\\n"%s); fflush(f);' % (
+                        name, ' '.join(fmt), ''.join(', ' + v for v in vals)),
+                    '  if (%s) { %s (*real)(%s) = look("%s");' % (
+                        cond, ret, params, name),
+                    '    depth++; %sreal(%s); depth--; %s}' % (
+                        ('%s r = ' % ret) if ret != 'void' else '', call,
+                        'return r; ' if ret != 'void' else 'return; ')]
+            for i in outs:
+                body.append('  if (a%d) *(int*)a%d = 0;' % (i, i))
+            body += ['  %s' % ('return 0;' if ret != 'void' else 'return;'),
+                     '}']
+            out.extend(body)
     return '\n'.join(out) + '\n'
+
+
+def parse_log(path):
+    calls = []
+    for line in open(path):
+        p = line.split()
+        if p and p[0] == 'CALL':
+            d = {'routine': p[1]}
+            for kv in p[2:]:
+                k, v = kv.split('=')
+                d[k] = 0 if v == '(nil)' else int(v, 0)
+            calls.append(d)
+    return calls
+
+
+def valgrind_errors(stderr):
+    """invalid accesses made below a cvxopt extension function, not counting
+    invalid READS inside the optimised BLAS kernels (OpenBLAS kernels load
+    whole vectors past the end of an operand by design)"""
+    import re
+    blocks, cur = [], None
+    for line in stderr.splitlines():
+        m = re.match(r'==\d+== (Invalid (read|write) of size \d+|Process '
+                     r'terminating.*|Jump to the invalid address.*)', line)
+        if m:
+            cur = {'what': m.group(1), 'frames': [], 'where': ''}
+            blocks.append(cur)
+            continue
+        if cur is None:
+            continue
+        m = re.match(r'==\d+==\s+(at|by) 0x[0-9A-F]+: (\S+) \((?:in )?'
+                     r'([^)]*)\)', line)
+        if m:
+            cur['frames'].append((m.group(2), os.path.basename(m.group(3))))
+            continue
+        m = re.match(r'==\d+==\s+Address (.*)', line)
+        if m:
+            cur['where'] = m.group(1)
+            cur = None
+    errs = []
+    for b in blocks:
+        if not b['what'].startswith('Invalid'):
+            continue
+        fr = b['frames']
+        if not any('cvxopt' in f[1] or f[1].startswith((
+                'base.', 'blas.', 'lapack.', 'misc_solvers.')) for f in fr):
+            continue
+        top = fr[0] if fr else ('?', '?')
+        if 'read' in b['what'] and 'openblas' in top[1]:
+            continue
+        errs.append({'what': b['what'], 'at': '%s (%s)' % top,
+                     'address': b['where'],
+                     'stack': [f[0] for f in fr[:8]]})
+    return errs
 
 
 class Env:
@@ -199,9 +303,10 @@ class Env:
         self.shim = None
         if interpose:
             from contracts.c.extern_blas import ROUTINES
+            from contracts.c.extern_lapack import ROUTINES as LROUTINES
             src = os.path.join(self.dir, 'interpose.c')
             with open(src, 'w') as f:
-                f.write(gen_interposer(ROUTINES))
+                f.write(gen_interposer(ROUTINES, LROUTINES))
             self.shim = os.path.join(self.dir, 'interpose.so')
             p = subprocess.run(['gcc', '-shared', '-fPIC', '-O1', '-w', src,
                                 '-o', self.shim, '-ldl'],
@@ -213,7 +318,7 @@ class Env:
             f.write(RUNNER)
         self.n = 0
 
-    def call(self, spec, forward=False, timeout=120):
+    def call(self, spec, forward=False, timeout=120, valgrind=False):
         """spec: {'module','func','args':[...],'kwargs':{...}} -> dict"""
         self.n += 1
         sp = os.path.join(self.dir, 'call%d.json' % self.n)
@@ -231,16 +336,28 @@ class Env:
             env['LD_LIBRARY_PATH'] = self.ld_path + ':' + env.get(
                 'LD_LIBRARY_PATH', '')
             env['UBSAN_OPTIONS'] = 'print_stacktrace=0:halt_on_error=0'
+        cmd = ['/venv/bin/python', os.path.join(self.dir, 'runner.py'), sp]
+        if valgrind:
+            env['PYTHONMALLOC'] = 'malloc'
+            cmd = ['valgrind', '-q', '--num-callers=12'] + cmd
+            timeout = max(timeout, 600)
         try:
-            p = subprocess.run(['/venv/bin/python', os.path.join(
-                self.dir, 'runner.py'), sp], capture_output=True, text=True,
-                timeout=timeout, env=env, cwd=self.dir)
+            p = subprocess.run(cmd, capture_output=True, text=True,
+                               timeout=timeout, env=env, cwd=self.dir)
         except subprocess.TimeoutExpired:
             return {'timeout': True}
         res = {'returncode': p.returncode, 'stderr': p.stderr[-4000:]}
         for line in p.stdout.splitlines():
+            if line.startswith('REPLAY-BUFS '):
+                res['bufs'] = json.loads(line[len('REPLAY-BUFS '):])
             if line.startswith('REPLAY-JSON '):
                 res.update(json.loads(line[len('REPLAY-JSON '):]))
+        if 'calls' not in res and os.path.exists(lg):
+            # the process died before it could report (signal, Fortran STOP
+            # in xerbla): the interposer log is still there
+            res['calls'] = parse_log(lg)
+        if valgrind:
+            res['valgrind'] = valgrind_errors(p.stderr)
         res['ubsan'] = [l for l in p.stderr.splitlines()
                         if 'runtime error:' in l]
         res['signal'] = -p.returncode if p.returncode < 0 else None
